@@ -59,7 +59,12 @@ func yamlScalar(b *bytes.Buffer, v jv.V) {
 			b.WriteString("false")
 		}
 	case jv.Num:
-		b.WriteString(v.N)
+		// "1e-07" is a float for YAML 1.2 core but some parsers want a dot
+		if i := strings.IndexAny(v.N, "eE"); i >= 0 && !strings.Contains(v.N, ".") {
+			b.WriteString(v.N[:i] + ".0" + v.N[i:])
+		} else {
+			b.WriteString(v.N)
+		}
 	case jv.Str:
 		yamlString(b, v.S)
 	}
